@@ -214,6 +214,10 @@ fn check_composite(st: &mut Stats, c: &Case, text: &str, want_accept: bool) {
 
 pub fn check(_ctx: &Ctx, st: &mut Stats, c: &Case) {
     st.tick();
+    // published for the stall watchdog (a parser that never returns is named by its input)
+    if let Ok(mut cur) = crate::rec::CURRENT.lock() {
+        *cur = serde_json::to_string(c).unwrap_or_default();
+    }
     st.decided += 1;
     let tys = types();
     if c.route == "composite" {
@@ -289,7 +293,8 @@ pub fn hostile_values(t: &Ty) -> Vec<f64> {
     v
 }
 
-pub const TEXTS: [&str; 44] = [
+pub const TEXTS: [&str; 53] = [
+    "12:30", "-12:59", "05:30", "+5:45", "12:00", "3h", "5°30'", "-1e22", "-1e300",
     "", " ", "45", " 45", "45 ", "\t45", "45\n", "+45", "-45", "9e1", "9E1", "0.9e2", "900e-1", "4_5", "0x2D", "0b1", "45.", ".5", "-.5", "+.5e1", "nan", "NaN", "NAN", "inf", "-inf", "+inf", "infinity", "-Infinity",
     "1e999", "-1e999", "1e-999", "٤٥", "４５", "45°", "45,0", "45.0.0", "--45", "+-45", "e5", "1e", "1e+", "0x1p3", "45f64", "١٢",
 ];
